@@ -138,6 +138,13 @@ def element_options(interp, it, node):
         n, at = ov
         k = ctx.fresh("k", z3.IntSort())
         return [([k], z3.And(k >= 0, k < n), at(k), k)]
+    if isinstance(it, VSet) and it.pred is None and isinstance(it.content, CompBag) and it.content.sites \
+            and all(isinstance(s.elem, (VInt, VStr)) for s in it.content.sites):
+        # a set yields each DISTINCT element once: bind the element value, not the generating instance
+        e0 = it.content.sites[0].elem
+        x = ctx.fresh("e", e0.term.sort())
+        xv = VInt(x) if isinstance(e0, VInt) else VStr(x)
+        return [([x], interp.specfuns.bag_contains(interp, it.content, xv), xv, None)]
     if isinstance(it, (VList, VSet)) and getattr(it, "pred", None) is None and isinstance(it.content, CompBag):
         out = []
         for s in it.content.sites:
